@@ -225,7 +225,7 @@ def run_case(case):
                     # (needs case['line_yield'] for that function: byte-code-level preemption point)
                     import inspect
                     import cflib.crazyflie as _cfm
-                    fn = {'run': _cfm._IncomingPacketHandler.run, 'send_packet': _cfm.Crazyflie.send_packet}[op[1]]
+                    fn = (_cfm._IncomingPacketHandler.run if op[1] == 'run' else getattr(_cfm.Crazyflie, op[1]))
                     src, start = inspect.getsourcelines(fn)
                     whats = set('line %d' % (start + i) for i, l in enumerate(src) if op[2] in l)
                     me = detsched._real_current()
